@@ -138,7 +138,7 @@ class Contract:
                  loops=None, modifies=(), ghosts=None, inline=False, trusted=False,
                  covers=(), native=None, result=None, note='', exact_raises=True,
                  dropped=(), opaque=None, floor=1, name=None, pure_result=False,
-                 assumes=(), variant='', uses=(), abstract_classes=None, reveal=(), cases=None, yields=None, then_call=None, pure_expr=None, shards=1, returns=None):
+                 assumes=(), variant='', uses=(), abstract_classes=None, reveal=(), cases=None, yields=None, then_call=None, pure_expr=None, shards=1, returns=None, opaque_attrs=None):
         self.prop = prop
         self.file = file
         self.qual = qual
@@ -164,6 +164,7 @@ class Contract:
         self.assumes = list(assumes)        # extra assumptions (each listed in the evidence)
         self.uses = list(uses)              # instances of proved lemmas: (lemma name, {var: text})
         self.abstract_classes = abstract_classes or {}
+        self.opaque_attrs = opaque_attrs or {}    # attributes of opaque objects: name -> Sort (uninterpreted functions of the object)
         self.returns = returns              # name of the parameter object the function returns (aliasing: `return self`)
         self.shards = shards                # discharge the obligations of this function in that many parallel workers
         self.yields = yields                # element sort of the ghost sequence of yielded values (generators)
